@@ -121,6 +121,8 @@ pub struct HistRun {
     pub re_sort: Closed,
     pub merged_exp: Closed,
     pub merged_sort: Closed,
+    /// the `Distribution` aggregation strategy (documented as sort-and-merge without naming T)
+    pub distribution: Closed,
     pub with_sort: bool,
     pub done: bool,
 }
@@ -128,6 +130,7 @@ pub struct HistRun {
 fn run_typed<T>(threads: Vec<Vec<T>>, order: Vec<(usize, usize)>, split: usize, with_sort: bool) -> HistRun
 where
     T: MetricValue + Clone + Send + Sync + 'static,
+    <metrique_aggregation::value::Distribution as AggregateValue<T>>::Aggregated: Default + CloseValue<Closed = HistogramClosed<T>>,
 {
     let mut out = HistRun::default();
     // (1) concurrent recording into one shared (atomic, exponential) histogram
@@ -148,32 +151,40 @@ where
     out.shared = capture(&shared.close());
     // (2) the same multiset, sequentially, in a seeded order
     let all: Vec<T> = order.iter().map(|(t, i)| threads[*t][*i].clone()).collect();
-    let mut he: Histogram<T, ExponentialAggregationStrategy> = Histogram::default();
-    let mut hsrt: Histogram<T, SortAndMerge> = Histogram::default();
+    let mut he: Histogram<T, ExponentialAggregationStrategy> = Histogram::new(ExponentialAggregationStrategy::default());
+    let mut hsrt: Histogram<T, SortAndMerge> = Histogram::new(SortAndMerge::default());
     for v in &all {
         he.add_value(v);
         if with_sort {
             hsrt.add_value(v.clone());
         }
     }
+    if with_sort {
+        type D = metrique_aggregation::value::Distribution;
+        let mut d: <D as AggregateValue<T>>::Aggregated = Default::default();
+        for v in &all {
+            <D as AggregateValue<T>>::insert(&mut d, v.clone());
+        }
+        out.distribution = capture(&d.close());
+    }
     let ce = he.close();
     let cs = hsrt.close();
     out.seq_exp = capture(&ce);
     out.seq_sort = capture(&cs);
     // (3) re-aggregation of a closed histogram into a fresh one of the same strategy
-    let mut re: Histogram<T, ExponentialAggregationStrategy> = Histogram::default();
+    let mut re: Histogram<T, ExponentialAggregationStrategy> = Histogram::new(ExponentialAggregationStrategy::default());
     <Histogram<T, ExponentialAggregationStrategy> as AggregateValue<HistogramClosed<T>>>::insert(&mut re, ce);
     out.re_exp = capture(&re.close());
-    let mut rs: Histogram<T, SortAndMerge> = Histogram::default();
+    let mut rs: Histogram<T, SortAndMerge> = Histogram::new(SortAndMerge::default());
     <Histogram<T, SortAndMerge> as AggregateValue<HistogramClosed<T>>>::insert(&mut rs, cs);
     out.re_sort = capture(&rs.close());
     // (4) two closed histograms merged into one
     let split = split.min(all.len());
-    let mut me: Histogram<T, ExponentialAggregationStrategy> = Histogram::default();
-    let mut ms: Histogram<T, SortAndMerge> = Histogram::default();
+    let mut me: Histogram<T, ExponentialAggregationStrategy> = Histogram::new(ExponentialAggregationStrategy::default());
+    let mut ms: Histogram<T, SortAndMerge> = Histogram::new(SortAndMerge::default());
     for part in [&all[..split], &all[split..]] {
-        let mut pe: Histogram<T, ExponentialAggregationStrategy> = Histogram::default();
-        let mut ps: Histogram<T, SortAndMerge> = Histogram::default();
+        let mut pe: Histogram<T, ExponentialAggregationStrategy> = Histogram::new(ExponentialAggregationStrategy::default());
+        let mut ps: Histogram<T, SortAndMerge> = Histogram::new(SortAndMerge::default());
         for v in part {
             pe.add_value(v);
             if with_sort {
@@ -398,6 +409,10 @@ pub fn check_c11(plan: &Value, run: &HistRun) -> Option<Violation> {
         };
         if v.is_some() {
             return v;
+        }
+        // the Distribution strategy "preserves all values while compressing duplicates": the same list
+        if run.distribution != run.seq_sort {
+            return Some(Violation::new("distribution_strategy_differs", format!("the Distribution aggregation strategy reports {:?} (unit {:?}); a sort-and-merge histogram of the same values reports {:?}", &run.distribution.obs[..run.distribution.obs.len().min(6)], run.distribution.unit, &run.seq_sort.obs[..run.seq_sort.obs.len().min(6)])));
         }
     }
     // re-aggregation
